@@ -55,7 +55,7 @@ def run(tier):
     th = threading.Thread(target=model_runs, args=(tier, wd, mc))
     th.start()
 
-    nfiles, per = (54, 10) if tier == 'quick' else (1440, 14)
+    nfiles, per = (54, 13) if tier == 'quick' else (1440, 14)
     combos = [(b, c) for b in (0, 10, 16) for c in (0, 1, 2)]
     args = []
     for fi in range(nfiles):
